@@ -830,7 +830,15 @@ class HttpStreamSession:
             return
         with contextlib.suppress(Exception):
             reader = _open_response_stream(resp.content, resp.status_code, self._ipc_validation)
-            _drain_stream(reader)
+            # The cancel response carries whatever ``on_cancel`` logged for the
+            # client; deliver it like any other log (best effort, like the
+            # rest of cancel).
+            while True:
+                try:
+                    batch, custom_metadata = reader.read_next_batch_with_custom_metadata()
+                except StopIteration:
+                    break
+                _dispatch_log_or_error(batch, custom_metadata, self._on_log)
 
     def __enter__(self) -> HttpStreamSession:
         """Enter the context."""
